@@ -357,6 +357,18 @@ pub fn run(ctx: &mut Ctx) {
                                         }
                                     }
                                 }
+                                if !fine {
+                                    // payoffs reach the solver through the file as decimal text minus half
+                                    // the constant, i.e. perturbed by a few units in the last place of the
+                                    // *written* numbers: would perturbing the payoffs by 1e-14..1e-13
+                                    // move the library's own answer as much?
+                                    let probe = solve::stability_probe(&efg2.tree, &cfg2, &|| Sampling::Production, &lib2, idx);
+                                    if probe >= d / 1000.0 {
+                                        ctx.count("gambit-features-differ-but-the-solve-is-unstable-under-1e-13-payoff-perturbations", 1);
+                                        ctx.inconclusive("outputs-differ-but-the-solve-is-unstable-under-1e-13-relative-payoff-perturbations");
+                                        return;
+                                    }
+                                }
                                 if fine {
                                     for f in &efg2.features {
                                         ctx.count(&format!("gambit-feature-vs-library:{}", f), 1);
@@ -508,7 +520,7 @@ pub fn run(ctx: &mut Ctx) {
         let _ = gen::METHODS;
     });
     ctx.finish(crate::report::extra(
-        "cases (five kinds, rotating): (a) `-m full` with every -d preset (and the default), -t in {1,2,3,10,50,200,0=unlimited with a reachable -r, left out = the documented default 1000, then with -r absent, 0, or 0.6 x the bound reached at 1000}, -r, -p 1: printed strategies must equal Game::solve(Full, T, r, 1, documented preset) called by the harness on the same tree within 1e-9 (bit-for-bit agreement is counted, not demanded: two separately compiled binaries may differ in the last place of powf), (a') the same with -p {2,4,0}; a larger difference is inconclusive only if the library trace passed within 1e-9 of a regret-matching discontinuity; (b)+(c) the same game and options through nine routes {stdin auto, stdin explicit, file explicit, .txt auto, -o file, Gambit file, Gambit explicit, Gambit .dat auto, Gambit stdin auto}: parsed results identical to `-i game.json` (bitwise where both encodings are exact), -o leaves stdout empty and replaces whatever the output file held before (absent / longer / shorter previous content); (c') a Gambit encoding using payoffs on interior nodes, shared outcomes, outcomes attached by number only (payoffs stated at another node), repeated chance-action labels, non-zero constant sums and unnamed/mixed infoset names must print the strategies Game::solve returns on the game the file describes (harness's own semantic tree), within 1e-9 or the tolerance measured from the library trace; (d) signatures of sampled methods on constructed games (a random 3-4 x 3-4 matrix game, or a chance move over two of them; -d vanilla -t 20): -m full repeatable, -m sampled equals -m full bit for bit on the chance-free game, and where the full solution is properly mixed -m sampled (with chance) and -m external never print exactly the -m full result in two repetitions; (e) clip, with and without -r {0.05,0.5,5}: with S the library solution and S' its truncation (by the C18 specification) the printed profile must be one of them, S' if its O1 regret is lower, S if higher or equal (within 1e-9 x scale: don't-care). distinct = hash(file, options/route); non-trivial = game has a decision infoset.",
+        "cases (five kinds, rotating): (a) `-m full` with every -d preset (and the default), -t in {1,2,3,10,50,200,0=unlimited with a reachable -r, left out = the documented default 1000, then with -r absent, 0, or 0.6 x the bound reached at 1000}, -r, -p 1: printed strategies must equal Game::solve(Full, T, r, 1, documented preset) called by the harness on the same tree within 1e-9 (bit-for-bit agreement is counted, not demanded: two separately compiled binaries may differ in the last place of powf), (a') the same with -p {2,4,0}; a larger difference is inconclusive only if the library trace passed within 1e-9 of a regret-matching discontinuity; (b)+(c) the same game and options through nine routes {stdin auto, stdin explicit, file explicit, .txt auto, -o file, Gambit file, Gambit explicit, Gambit .dat auto, Gambit stdin auto}: parsed results identical to `-i game.json` (bitwise where both encodings are exact), -o leaves stdout empty and replaces whatever the output file held before (absent / longer / shorter previous content); (c') a Gambit encoding using payoffs on interior nodes, shared outcomes, outcomes attached by number only (payoffs stated at another node), repeated chance-action labels, non-zero constant sums and unnamed/mixed infoset names must print the strategies Game::solve returns on the game the file describes (harness's own semantic tree), within 1e-9 or the tolerance measured from the library trace (a larger difference is inconclusive if the library's own answer moves by at least a thousandth of it when every payoff is perturbed by a relative 1e-14..1e-13); (d) signatures of sampled methods on constructed games (a random 3-4 x 3-4 matrix game, or a chance move over two of them; -d vanilla -t 20): -m full repeatable, -m sampled equals -m full bit for bit on the chance-free game, and where the full solution is properly mixed -m sampled (with chance) and -m external never print exactly the -m full result in two repetitions; (e) clip, with and without -r {0.05,0.5,5}: with S the library solution and S' its truncation (by the C18 specification) the printed profile must be one of them, S' if its O1 regret is lower, S if higher or equal (within 1e-9 x scale: don't-care). distinct = hash(file, options/route); non-trivial = game has a decision infoset.",
         &["the harness library build has the hooks compiled in but inactive; agreement with the hook-free binary within 1e-9 on every -m full run is itself evidence that the hooks do not change what is computed", "Gambit rational probabilities are only exact for power-of-two denominators; other files are compared within rounding"],
     ));
 }
